@@ -231,6 +231,7 @@ pub struct FnWeaver<'a> {
     pub edits: Vec<Edit>,
     seq: usize,
     loop_ord: usize,
+    closure_ord: usize,
     guards: Vec<String>,
     params: Vec<String>,
     ret_name: String,
@@ -1036,6 +1037,19 @@ impl<'x, 'a, 'ast> Visit<'ast> for PassA<'x, 'a> {
         }
         syn::visit::visit_expr_call(self, c);
     }
+    fn visit_expr_closure(&mut self, c: &'ast syn::ExprClosure) {
+        self.w.closure_ord += 1;
+        let ord = self.w.closure_ord;
+        if let Some((ty, cl)) = self.w.c.closures.get(&ord).cloned() {
+            let t = self.w.clause_text(&cl, "closure-ensures");
+            let is_block = matches!(&*c.body, syn::Expr::Block(_));
+            self.w.ghost(hi(c.or2_token.span()), format!(" -> (r: {}) ensures {}{}", ty, t, if is_block { " " } else { " { " }), 0);
+            if !is_block {
+                self.w.ghost(hi(c.body.span()), " }".into(), 6);
+            }
+        }
+        syn::visit::visit_expr_closure(self, c);
+    }
     fn visit_expr_while(&mut self, e: &'ast syn::ExprWhile) {
         self.w.loop_ord += 1;
         let ord = self.w.loop_ord;
@@ -1160,6 +1174,7 @@ pub fn new_weaver<'a>(src: &'a str, file: &'a str, func: String, c: &'a FnContra
         edits: vec![],
         seq: 0,
         loop_ord: 0,
+        closure_ord: 0,
         guards: vec![],
         params: vec![],
         ret_name,
